@@ -77,6 +77,11 @@ CURATED = [
     [L([O('nkstar', [], star='Any', nokw=True)])],
     # keyword names differ between overloads
     [L([O('xy', [P('x', 'A'), P('y', 'A')]), O('yx', [P('y', 'A'), P('x', 'A')])])],
+    # indistinguishable overloads are ambiguous however exactly they fit the arguments; an exact fit does not hide the others
+    [L([O('i1', [P('x', 'B')]), O('i2', [P('x', 'B')])])],
+    [L([O('i1', [P('x', 'D'), P('y', 'Int')]), O('i2', [P('x', 'D'), P('y', 'Int')]), O('w', [P('x', 'A'), P('y', 'Any')])])],
+    [L([O('ex', [P('x', 'D')]), O('in1', [P('x', 'B'), P('y', 'Any', True)]), O('in2', [P('x', 'C'), P('y', 'Any', True)])])],
+    [L([O('ex', [P('x', 'Int'), P('y', 'D')]), O('xy', [P('x', 'Any'), P('y', 'D')]), O('yx', [P('x', 'Int'), P('y', 'Any')])])],
     # lazy parameters: overloads that survive the arity filter must agree on which arguments stay unevaluated
     [L([O('lz', [P('x', 'A'), P('y', 'Lazy')]), O('eg', [P('x', 'A'), P('y', 'Any')])])],
     [L([O('lz', [P('x', 'D'), P('y', 'Lazy')]), O('eg', [P('x', 'A'), P('y', 'Any')])])],
